@@ -88,6 +88,7 @@ def generate(rs: int, tier: str, index: int) -> dict:
             "locale": ch.choice(["utf-8", "utf-8", "latin-1", "ascii"]),
             "fault": ch.weighted([(4, None), (3, "write"), (1, "close"), (2, "read"), (2, "full")]),
             "forward_only": ch.chance(0.4),
+            "buffered_reader": ch.chance(0.3),
         })
     else:
         rows, cols = ch.between(1, 4), ch.between(1, 3)
@@ -132,6 +133,7 @@ class Runner:
         self.stats: Dict[str, int] = {}
         self.sigs: set = set()
         self.forward_only = any(step.get("forward_only") for step in plan["steps"])
+        self.buffered_reader = any(step.get("buffered_reader") for step in plan["steps"])
 
     def bump(self, key: str, n: int = 1) -> None:
         self.stats[key] = self.stats.get(key, 0) + n
@@ -285,6 +287,10 @@ class Runner:
         if kind.startswith("sim"):
             if kind.startswith("simtext"):
                 stream: Any = fileseam.SimText(target.getvalue(), faults=faults, **({"encoding": "utf-8"} if kind.endswith("_enc") else {}))
+            elif self.buffered_reader and not kind.endswith("_enc"):
+                # the reader is a buffered stream over a source that delivers a few bytes at a time
+                stream = fileseam.SimBuffered(target.getvalue(), faults=faults, piece=3 + core.H(self.rs, "piece") % 9)
+                self.bump("probe:buffered_reader_with_short_peek")
             else:
                 stream = fileseam.SimBytes(target.getvalue(), faults=faults, **({"encoding": "latin-1"} if kind.endswith("_enc") else {}))
             # a forward-only reader (a pipe, a decompressor, an HTTP body): tell() answers, seek() refuses
